@@ -892,3 +892,84 @@ func ExpectedEnum(d *Decl) string {
 	}
 	return upperFirst(d.Name) + "{" + strings.Join(parts, ";") + "}"
 }
+
+// ---- grammar-aware invalidation: programs that are certainly outside the language ----
+
+var invalidKinds = []string{"dup-tag", "undefined-type", "redefine-struct", "redefine-enum", "redefine-interface",
+	"default-string-on-int", "default-int-on-string", "unsigned-long", "enum-default-unknown", "bool-default-float"}
+
+// Invalidate turns a valid single-file program into one that violates exactly one side condition of
+// the language; the tool must reject it with a diagnostic.  Returns false when the program has no
+// place for that kind.
+func Invalidate(p *Prog, kind string, rng *rand.Rand) bool {
+	m := p.Files[0].Modules[0]
+	var structs, enums, ifaces []*Decl
+	for _, d := range m.Decls {
+		switch d.Kind {
+		case "struct":
+			structs = append(structs, d)
+		case "enum":
+			enums = append(enums, d)
+		case "interface":
+			ifaces = append(ifaces, d)
+		}
+	}
+	newStruct := func() *Decl {
+		d := &Decl{Kind: "struct", Name: fmt.Sprintf("Inv%d", rng.Intn(1000))}
+		m.Decls = append(m.Decls, d)
+		return d
+	}
+	switch kind {
+	case "dup-tag":
+		d := newStruct()
+		t := rng.Intn(256)
+		d.Fields = []Field{{Tag: t, Req: true, Name: "a", Ty: &Ty{Kind: "prim", Prim: "int"}},
+			{Tag: (t + 7) % 256, Req: false, Name: "b", Ty: &Ty{Kind: "prim", Prim: "string"}},
+			{Tag: t, Req: false, Name: "c", Ty: &Ty{Kind: "prim", Prim: "long"}}}
+	case "undefined-type":
+		d := newStruct()
+		ty := &Ty{Kind: "named", Mod: m.Name, Name: "NoSuchType"}
+		if rng.Intn(2) == 0 {
+			ty = &Ty{Kind: "vector", K: ty}
+		}
+		d.Fields = []Field{{Tag: 1, Req: true, Name: "a", Ty: ty}}
+	case "redefine-struct":
+		if len(structs) == 0 {
+			return false
+		}
+		c := *structs[rng.Intn(len(structs))]
+		m.Decls = append(m.Decls, &c)
+	case "redefine-enum":
+		if len(enums) == 0 {
+			return false
+		}
+		c := *enums[rng.Intn(len(enums))]
+		m.Decls = append(m.Decls, &c)
+	case "redefine-interface":
+		if len(ifaces) == 0 {
+			return false
+		}
+		c := *ifaces[rng.Intn(len(ifaces))]
+		m.Decls = append(m.Decls, &c)
+	case "default-string-on-int":
+		d := newStruct()
+		d.Fields = []Field{{Tag: 0, Req: false, Name: "a", Ty: &Ty{Kind: "prim", Prim: []string{"int", "short", "long", "byte", "bool", "float", "double"}[rng.Intn(7)]}, Default: `"x"`, DefKind: "str"}}
+	case "default-int-on-string":
+		d := newStruct()
+		d.Fields = []Field{{Tag: 0, Req: false, Name: "a", Ty: &Ty{Kind: "prim", Prim: "string"}, Default: "5", DefKind: "int"}}
+	case "bool-default-float":
+		d := newStruct()
+		d.Fields = []Field{{Tag: 0, Req: false, Name: "a", Ty: &Ty{Kind: "prim", Prim: "int"}, Default: "true", DefKind: "bool"}}
+	case "unsigned-long":
+		d := newStruct()
+		d.Fields = []Field{{Tag: 0, Req: true, Name: "a", Ty: &Ty{Kind: "prim", Prim: []string{"long", "bool", "string", "float", "double"}[rng.Intn(5)], Unsigned: true}}}
+	case "enum-default-unknown":
+		e := &Decl{Kind: "enum", Name: "InvE", Mems: []EnumMem{{Name: "InvA", Kind: 2}}}
+		d := &Decl{Kind: "struct", Name: "InvS", Fields: []Field{{Tag: 0, Req: false, Name: "a", Default: "NoSuchMember", DefKind: "enum",
+			Ty: &Ty{Kind: "named", Mod: m.Name, Name: "InvE", IsEnum: true}}}}
+		m.Decls = append(m.Decls, e, d)
+	default:
+		return false
+	}
+	return true
+}
